@@ -182,6 +182,9 @@ def r07c(ctx, P):
            where.loc() if where else None)
 
 
+THOROUGH_FEATURES = ['r07b', 'r07c']
+
+
 def run(ctx, progs):
     P = progs.get("default")
     r07a(ctx, P)
